@@ -3,6 +3,7 @@ package core
 import (
 	"bytes"
 	"fmt"
+	"os"
 	"reflect"
 	"runtime"
 	"runtime/debug"
@@ -438,6 +439,9 @@ func (s *Sched) Run(done func() bool) RunResult {
 			s.ep.Logf("step %d: pass-time %v", s.Steps, q)
 			s.passTime(q)
 			continue
+		}
+		if os.Getenv("VSIM_DEBUGTIME") != "" {
+			s.ep.Logf("  t=%v", time.Now().Sub(time.Date(2000, 1, 1, 0, 0, 0, 0, time.UTC)))
 		}
 		s.ep.Logf("step %d: %s", s.Steps, evs[i].Key)
 		evs[i].Apply()
